@@ -470,11 +470,7 @@ func (pConn *PFCPConn) handleSessionDeletionRequest(msg message.Message) (messag
 		return sendError(ErrWriteToDatapath)
 	}
 
-	if err := releaseAllocatedIPs(upf.ippool, &session); err != nil {
-		return sendError(ErrOperationFailedWithReason("session IP dealloc", err.Error()))
-	}
-
-	/* delete sessionRecord */
+	/* delete sessionRecord; this also returns the session's UE IP address and TEIDs */
 	pConn.RemoveSession(session)
 
 	// Build response message
